@@ -617,6 +617,11 @@ def gen_job(rng, thorough):
             # them): which of the two a `DpbShared *` resolves to must not depend on the order in
             # which the transformer happened to meet A and B
             a['id_prefixes'] = ['Dpa', 'Dp']
+            if rng.random() < 0.5:
+                # ... or both answer to "Dp" (a compatibility copy of a type that moved from one
+                # library to the other): then neither prefix is longer and only a deterministic
+                # registration order of the two can make the choice stable
+                b['id_prefixes'] = ['Dpb', 'Dp']
             for j, tag in ((a, 'a'), (b, 'b')):
                 f = [x for x in j['file_order'] if x.endswith('-typedefs.h')][0]
                 j['decls'].append({'k': 'typedef_struct_fwd', 'name': 'DpbShared', 'tag': '_DpbShared' + tag,
